@@ -68,6 +68,13 @@ func validCorpus() []VFrame {
 		s := gen.Schemas[t]
 		add(s.Name+".min", minimalPacket(t), spec.Form{})
 		add(s.Name+".rich", richPacket(t, false), spec.Form{})
+		// a two-byte property length
+		if p := gen.WithPropertyLength(minimalPacket(t), 128); p != nil {
+			add(s.Name+".proplen128", p, spec.Form{})
+		}
+		if p := gen.WithPropertyLength(richPacket(t, false), 200); p != nil {
+			add(s.Name+".rich.proplen200", p, spec.Form{})
+		}
 		if len(s.Slots) == 0 {
 			continue
 		}
